@@ -1,13 +1,330 @@
-"""C16: T-tie of vyper/evm/assembler/instructions.py (stub, replaced below)."""
+"""C16: T-tie of vyper/evm/assembler/instructions.py.
+
+`InstrTranslator` extends the shared py2coq translator (fail closed) with exactly what the four pure
+helpers of instructions.py need:
+  * `o = []` (type from a hint), `o.insert(0, e)`  ->  `let o := e :: o`
+  * `while c: body`        -> fuelled Fixpoint (fuel expression from a per-loop hint; running out = Err OutOfFuel)
+  * `for _ in range(n)`    -> Fixpoint over `Z.to_nat n` (loop variable must be unused)
+  * list `+` list          -> `++`
+  * f"PUSH{e}"             -> the integer e   (a PUSHk mnemonic is represented by k; the consumer
+                              `_compile_push_instruction` does `PUSH_OFFSET + int(mnemonic[4:])`, hand-modelled
+                              as `compile_push` in InstrSound.v)
+  * version_check(begin=F) -> `(idx F <=? evm) && (evm <=? max idx)` with `evm` a Section variable, the constants read
+                              from the live vyper.evm.opcodes.EVM_VERSIONS
+The CPython-vs-model differential below validates these rules on every run."""
+import ast
+import textwrap
+
+from . import coqrun
+from .common import COQ
+from .py2coq import E, Translator, Ty, Unsupported, cname, ty_str
+
+FUNCS = ["num_to_bytearray", "PUSH", "PUSH_N", "calc_push_size"]
+
+
+def _names(nodes):
+    out = []
+    for n in nodes:
+        for x in ast.walk(n):
+            if isinstance(x, ast.Name) and x.id not in out:
+                out.append(x.id)
+    return out
+
+
+class InstrTranslator(Translator):
+    def __init__(self):
+        super().__init__("vyper.evm.assembler.instructions")
+        self.var_types = {}
+        self.fuel_hint = {}
+        self.cur_fn = None
+        self.loop_count = {}
+        self.uses_evm = False
+        self.bindings["version_check"] = {"special": InstrTranslator._sp_version_check}
+
+    # ---- expressions
+    def _sp_version_check(self, node, args, kw, env):
+        from vyper.evm.opcodes import EVM_VERSIONS
+        if args or set(kw) != {"begin"} or not (isinstance(kw["begin"], ast.Constant) and kw["begin"].value in EVM_VERSIONS):
+            raise Unsupported("version_check call shape")
+        self.uses_evm = True
+        lo = EVM_VERSIONS[kw["begin"].value]
+        hi = max(EVM_VERSIONS.values())
+        return E(f"(({lo} <=? evm) && (evm <=? {hi}))", Ty.B)
+
+    def expr(self, node, env):
+        if isinstance(node, ast.JoinedStr):
+            v = node.values
+            if (len(v) == 2 and isinstance(v[0], ast.Constant) and v[0].value == "PUSH"
+                    and isinstance(v[1], ast.FormattedValue) and v[1].format_spec is None and v[1].conversion == -1):
+                return self.as_z(self.expr(v[1].value, env))
+            raise Unsupported("f-string other than f\"PUSH{e}\"")
+        if isinstance(node, ast.BinOp) and isinstance(node.op, ast.Add):
+            a = self.expr(node.left, env)
+            b = self.expr(node.right, env)
+            la = isinstance(a.ty, tuple) and a.ty[0] == "list"
+            lb = isinstance(b.ty, tuple) and b.ty[0] == "list"
+            if la or lb:
+                if not (la and lb and a.ty == b.ty):
+                    raise Unsupported("list + non-list")
+                return E(f"({a.text} ++ {b.text})", a.ty, a.pre + b.pre)
+        return super().expr(node, env)
+
+    # ---- statements
+    def block(self, stmts, env, ret_ty_box, tail=None):
+        if stmts:
+            s, rest = stmts[0], stmts[1:]
+            if (isinstance(s, ast.Assign) and len(s.targets) == 1 and isinstance(s.targets[0], ast.Name)
+                    and isinstance(s.value, ast.List) and not s.value.elts):
+                nm = s.targets[0].id
+                t = self.var_types.get((self.cur_fn, nm))
+                if t is None:
+                    raise Unsupported(f"empty list {nm} needs a type hint")
+                env2 = dict(env)
+                env2[nm] = t
+                return f"let {cname(nm)} := (@nil {ty_str(t[1])}) in\n" + self.block(rest, env2, ret_ty_box, tail)
+            if isinstance(s, ast.Expr) and isinstance(s.value, ast.Call):
+                c = s.value
+                if (isinstance(c.func, ast.Attribute) and c.func.attr == "insert" and isinstance(c.func.value, ast.Name)
+                        and len(c.args) == 2 and isinstance(c.args[0], ast.Constant) and c.args[0].value == 0
+                        and not c.keywords):
+                    nm = c.func.value.id
+                    t = env.get(nm)
+                    if not (isinstance(t, tuple) and t[0] == "list"):
+                        raise Unsupported("insert on non-list")
+                    e = self.coerce(self.expr(c.args[1], env), t[1])
+                    body = self.block(rest, env, ret_ty_box, tail)
+                    return self.wrap_pre(e.pre, f"let {cname(nm)} := {e.text} :: {cname(nm)} in\n{body}")
+                raise Unsupported("expression statement")
+            if isinstance(s, ast.For):
+                return self.for_range(s, rest, env, ret_ty_box, tail)
+        return super().block(stmts, env, ret_ty_box, tail)
+
+    def assigned_vars(self, stmts):
+        out = super().assigned_vars(stmts)
+        for s in stmts:
+            if (isinstance(s, ast.Expr) and isinstance(s.value, ast.Call) and isinstance(s.value.func, ast.Attribute)
+                    and s.value.func.attr == "insert" and isinstance(s.value.func.value, ast.Name)):
+                if s.value.func.value.id not in out:
+                    out.append(s.value.func.value.id)
+        return out
+
+    def _loop_common(self, body, env, extra_nodes):
+        if self.contains_return(body):
+            raise Unsupported("return/raise inside loop")
+        carried = [v for v in self.assigned_vars(body) if v in env]
+        local = [v for v in self.assigned_vars(body) if v not in env]
+        used = _names(list(body) + extra_nodes)
+        ro = [v for v in used if v in env and v not in carried]
+        if any(isinstance(env[v], tuple) and env[v][0] == "fn" for v in ro + carried):
+            raise Unsupported("function-typed variable in loop")
+        k = self.loop_count.get(self.cur_fn, 0) + 1
+        self.loop_count[self.cur_fn] = k
+        name = f"{cname(self.cur_fn)}_loop{k}"
+        return carried, local, ro, name, k
+
+    def _carried_tuple(self, carried):
+        return "(" + ", ".join(cname(v) for v in carried) + ")" if len(carried) != 1 else cname(carried[0])
+
+    def _emit_loop(self, name, fuelvar, ro, carried, env, zero_case, step):
+        params = " ".join(f"({cname(v)} : {ty_str(env[v])})" for v in ro + carried)
+        rty = " * ".join(ty_str(env[v]) for v in carried) or "unit"
+        self.out.append(
+            f"Fixpoint {name} ({fuelvar} : nat) {params} : res ({rty}) :=\n"
+            f"  match {fuelvar} with\n  | O => {zero_case}\n  | S {fuelvar}' =>\n{textwrap.indent(step, '    ')}\n  end.")
+
+    def _after(self, name, fuel, ro, carried, rest, env, ret_ty_box, tail):
+        args = " ".join(cname(v) for v in ro + carried)
+        body = self.block(rest, env, ret_ty_box, tail)
+        pat = self._carried_tuple(carried)
+        if len(carried) == 1:
+            return f"{pat} <- {name} {fuel} {args} ;;\n{body}"
+        return f"'{pat} <- {name} {fuel} {args} ;;\n{body}"
+
+    def loop(self, s, rest, env, ret_ty_box, tail):  # while
+        if s.orelse:
+            raise Unsupported("while/else")
+        carried, local, ro, name, k = self._loop_common(s.body, env, [s.test])
+        if not carried:
+            raise Unsupported("while loop without loop-carried state")
+        fuel = self.fuel_hint.get((self.cur_fn, k))
+        if fuel is None:
+            raise Unsupported(f"while loop {self.cur_fn}#{k} needs a fuel hint")
+        c = self.as_b(self.expr(s.test, env))
+        args = " ".join(cname(v) for v in ro + carried)
+        again = self.block(list(s.body), env, {"ty": None}, lambda env_b: f"{name} fuel' {args}")
+        done = "Ok " + self._carried_tuple(carried)
+        step = self.wrap_pre(c.pre, f"if {c.text} then\n{textwrap.indent(again, '  ')}\nelse {done}")
+        self._emit_loop(name, "fuel", ro, carried, env, "Err OutOfFuel", step)
+        return self._after(name, fuel, ro, carried, rest, env, ret_ty_box, tail)
+
+    def for_range(self, s, rest, env, ret_ty_box, tail):
+        if s.orelse or not (isinstance(s.target, ast.Name) and isinstance(s.iter, ast.Call)
+                            and isinstance(s.iter.func, ast.Name) and s.iter.func.id == "range"
+                            and len(s.iter.args) == 1 and not s.iter.keywords):
+            raise Unsupported("for loop other than `for v in range(n)`")
+        if s.target.id in _names(s.body):
+            raise Unsupported("for-range loop variable is used in the body")
+        n = self.as_z(self.expr(s.iter.args[0], env))
+        carried, local, ro, name, k = self._loop_common(s.body, env, [])
+        if not carried:
+            raise Unsupported("for loop without loop-carried state")
+        args = " ".join(cname(v) for v in ro + carried)
+        again = self.block(list(s.body), env, {"ty": None}, lambda env_b: f"{name} fuel' {args}")
+        self._emit_loop(name, "fuel", ro, carried, env, "Ok " + self._carried_tuple(carried), again)
+        return self.wrap_pre(n.pre, self._after(name, f"(Z.to_nat {n.text})", ro, carried, rest, env, ret_ty_box, tail))
+
+    def _translate_function(self, fname, fdef):
+        saved = self.cur_fn
+        self.cur_fn = fname
+        try:
+            return super()._translate_function(fname, fdef)
+        finally:
+            self.cur_fn = saved
+
+    def render(self, header=""):
+        body = list(self.out)
+        self.out = ["Section Evm.", "Variable evm : Z.  (* index of the active EVM version in vyper.evm.opcodes.EVM_VERSIONS *)"] \
+            + body + ["End Evm."]
+        try:
+            return super().render(header)
+        finally:
+            self.out = body
+
+
+def gen_instr():
+    tr = InstrTranslator()
+    LZ = Ty.lst(Ty.Z)
+    tr.var_types[("num_to_bytearray", "o")] = LZ
+    tr.var_types[("PUSH_N", "o")] = LZ
+    # num_to_bytearray divides by 256 per iteration: bit length (+2) bounds the iteration count
+    tr.fuel_hint[("num_to_bytearray", 1)] = "(2 + Z.to_nat (Z.log2 x))%nat"
+    for f in FUNCS:
+        tr.translate_function(f)
+    want = {"num_to_bytearray": ([Ty.Z], LZ), "PUSH": ([Ty.Z], LZ), "PUSH_N": ([Ty.Z, Ty.Z], LZ),
+            "calc_push_size": ([Ty.Z], Ty.Z)}
+    for f, (a, r) in want.items():
+        got = tr.sigs[f]
+        if (got[0], got[1]) != (a, r):
+            raise Unsupported(f"signature of {f} changed: {got[0]} -> {got[1]}")
+    return tr.render()
+
+
+_state = {}
 
 
 def generate(ctx):
-    return False
+    """writes coq/C16/GenAsmInstr.v; returns True if the translation succeeded."""
+    try:
+        text = gen_instr()
+    except Unsupported as e:
+        _state["rejected"] = str(e)
+        return False
+    (COQ / "C16" / "GenAsmInstr.v").write_text(text)
+    return True
+
+
+def _grid(ctx):
+    rnd = ctx.rng("instr")
+    xs = [0, 1, 2, 127, 128, 255, 256, 257, 65535, 65536, 65537, 2**255, 2**256 - 1, 2**256, 2**256 + 1, 2**264 - 1, -1, -255, -256, -257]
+    xs += [256**k for k in range(2, 34)] + [256**k - 1 for k in range(2, 34)]
+    xs += [rnd.randrange(2**rnd.randrange(1, 270)) for _ in range(40)]
+    return sorted(set(xs))
+
+
+def _real(fn, args, evm):
+    from vyper.compiler.settings import Settings, anchor_settings
+    from vyper.evm.assembler import instructions as I
+    from vyper.evm.assembler.core import _compile_push_instruction
+    with anchor_settings(Settings(evm_version=evm)):
+        try:
+            r = getattr(I, fn)(*args)
+            if fn in ("PUSH", "PUSH_N"):
+                r = list(_compile_push_instruction(r))
+            elif fn == "num_to_bytearray":
+                r = list(r)
+            else:
+                r = [r]
+            return r
+        except AssertionError:
+            return "err"
+        except ValueError:  # bytes() of an out-of-range item / bad mnemonic number
+            return "err"
+
+
+def _cases(ctx):
+    from vyper.evm.opcodes import EVM_VERSIONS
+    xs = _grid(ctx)
+    ns = [0, 1, 2, 3, 31, 32, 33]
+    cases = []  # (fn, args, evm, coq expr)
+    for evm in ("paris", "shanghai", "prague", "london"):
+        v = EVM_VERSIONS[evm]
+        for x in xs:
+            cases.append(("PUSH", (x,), evm, f"out (l <- PUSH {v} {coqrun.hexlit(x)} ;; compile_push l)"))
+            cases.append(("calc_push_size", (x,), evm, f"out (n <- GenAsmInstr.calc_push_size {v} {coqrun.hexlit(x)} ;; Ok [n])"))
+    for x in xs:
+        cases.append(("num_to_bytearray", (x,), "prague", f"out (num_to_bytearray {coqrun.hexlit(x)})"))
+        for n in ns:
+            cases.append(("PUSH_N", (x, n), "prague", f"out (l <- PUSH_N {coqrun.hexlit(x)} {n} ;; compile_push l)"))
+    return cases
 
 
 def differential(ctx):
-    return 0, 0
+    """translation validation: regenerated Coq model of instructions.py vs CPython.  -> (n, mismatches)"""
+    cases = _cases(ctx)
+    imports = ("From Verif Require Import Base.PyInt C16.Asm C16.GenAsmInstr C16.InstrBridge.\n"
+               "Definition out (r : res (list Z)) : list Z := match r with Ok l => 7 :: l | Err _ => [9] end.")
+    try:
+        outs = coqrun.eval_zlists(imports, [c[3] for c in cases], "c16instr", shard=80)
+    except RuntimeError as e:
+        _state["diff_error"] = str(e)[-800:]
+        return 0, [{"error": str(e)[-800:]}]
+    bad = []
+    for (fn, args, evm, _), o in zip(cases, outs):
+        real = _real(fn, args, evm)
+        model = "err" if o == [9] else o[1:]
+        if real != model:
+            bad.append({"fn": fn, "args": [str(a) for a in args], "evm": evm, "python": str(real)[:200], "model": str(model)[:200]})
+    _state["diff_bad"] = bad
+    return len(cases), bad[:5]
 
 
 def search(ctx):
-    return 0
+    """property oracle directly on the real helpers: exact value, minimal width, PUSH0 rule, no truncation."""
+    found = 0
+    if "rejected" in _state:
+        pass
+    for evm in ("london", "paris", "shanghai", "cancun", "prague"):
+        p0 = evm in ("shanghai", "cancun", "prague")
+        for x in [v for v in _grid(ctx) if 0 <= v < 2**256]:
+            r = _real("PUSH", (x,), evm)
+            n = (x.bit_length() + 7) // 8
+            if x == 0 and not p0:
+                want = [0x60, 0]
+            else:
+                want = [0x5F + n] + list(x.to_bytes(n, "big"))
+            sz = _real("calc_push_size", (x,), evm)
+            if r != want or sz != [len(want)]:
+                found += 1
+                if found <= 2:
+                    ctx.violation("failing-input", f"PUSH({x:#x}) under {evm} is not the minimal exact push",
+                                  {"call": f"_compile_push_instruction(vyper.evm.assembler.instructions.PUSH({x})), "
+                                           f"calc_push_size({x}) with evm_version={evm}",
+                                   "expected_bytes": bytes(want).hex(), "observed": str(r)[:200], "calc_push_size": str(sz)},
+                                  key=f"c16:PUSH:{evm}:{x}")
+                break
+    for x in _grid(ctx):
+        for n in (0, 1, 2, 3, 32):
+            r = _real("PUSH_N", (x, n), "prague")
+            want = [0x5F + n] + list(x.to_bytes(n, "big")) if 0 <= x < 256**n else "err"
+            if r != want:
+                found += 1
+                if found <= 4:
+                    ctx.violation("failing-input", f"PUSH_N({x:#x}, {n}) truncates or mis-encodes",
+                                  {"call": f"_compile_push_instruction(vyper.evm.assembler.instructions.PUSH_N({x}, {n}))",
+                                   "expected": bytes(want).hex() if want != "err" else "AssertionError", "observed": str(r)[:200]},
+                                  key=f"c16:PUSH_N:{n}:{x}")
+                return found
+    if "rejected" in _state and not found:
+        ctx.violation("translator-rejected", "py2coq cannot translate instructions.py: " + _state["rejected"],
+                      {"error": _state["rejected"]})
+    return found
